@@ -98,11 +98,11 @@ Proof. reflexivity. Qed.
 
 Lemma step_versions_spec h o h1 o1 :
   step_versions h o = Ok (h1, o1) ->
-  exists l, filter_range (minVersion (sc o)) (maxVersion (sc o)) (G h o F_versions) = Ok l /\
+  exists l, filter_range (clip_lo (minVersion (sc o))) (maxVersion (sc o)) (G h o F_versions) = Ok l /\
             h1 = (h ++ [l])%list /\ o1 = set_loc o F_versions (List.length h).
 Proof.
   unfold step_versions.
-  destruct (filter_range (minVersion (sc o)) (maxVersion (sc o)) (G h o F_versions)) as [l|e]; [|discriminate].
+  destruct (filter_range (clip_lo (minVersion (sc o))) (maxVersion (sc o)) (G h o F_versions)) as [l|e]; [|discriminate].
   unfold halloc. intros H. injection H as <- <-. exists l. auto.
 Qed.
 
